@@ -379,6 +379,15 @@ pub struct HdrVec {
     pub flag: bool,
 }
 
+/// A vector of vectors in an attribute: the printers write an empty one as `@rows({})`, the same text as a vector
+/// holding one empty vector.
+#[derive(Form, Debug, Clone, PartialEq)]
+pub struct AttrRows {
+    #[form(attr)]
+    pub rows: Vec<Vec<i32>>,
+    pub n: i32,
+}
+
 #[derive(Form, Debug, Clone, PartialEq)]
 pub struct Wrap {
     #[form(header)]
@@ -448,6 +457,7 @@ pub enum TV {
     VecPlain(Vec<(i32, String, Option<i64>)>),
     HdrVec { n: i32, items: Vec<i32>, flag: bool },
     VecHdrVec(Vec<(i32, Vec<i32>, bool)>),
+    AttrRows { rows: Vec<Vec<i32>>, n: i32 },
     /// `swimos_model::Timestamp`, microseconds since the epoch (not negative).
     Timestamp(u64),
 }
@@ -480,6 +490,10 @@ pub trait TypedVisitor {
     /// Called before `visit`: the value is a collection whose only item is an absent value (classification of a
     /// recorded finding: Recon has no token for an absent value, the record is printed `{}`).
     fn note_lone_absent_item(&mut self, _present: bool) {}
+
+    /// Called before `visit`: the value holds an empty vector of vectors in an attribute (classification of a recorded
+    /// finding: it is printed `@rows({})`, which is read as one empty row).
+    fn note_empty_attr_vec(&mut self, _present: bool) {}
 
     fn visit<T>(&mut self, type_name: &'static str, value: T, eq: fn(&T, &T) -> bool)
     where
@@ -525,6 +539,7 @@ impl TV {
             TV::VecPlain(_) => "vec_struct_plain",
             TV::HdrVec { .. } => "struct_hdr_vec",
             TV::VecHdrVec(_) => "vec_struct_hdr_vec",
+            TV::AttrRows { .. } => "struct_attr_rows",
         }
     }
 
@@ -539,6 +554,7 @@ impl TV {
         };
         vis.note_infinite_float(infinite);
         vis.note_lone_absent_item(matches!(self, TV::VecOptI32(v) if v.len() == 1 && v[0].is_none()));
+        vis.note_empty_attr_vec(matches!(self, TV::AttrRows { rows, .. } if rows.is_empty()));
         match self {
             TV::Unit => vis.visit(name, (), eq_std),
             TV::I32(n) => vis.visit(name, *n, eq_std),
@@ -578,6 +594,7 @@ impl TV {
             TV::VecPlain(v) => vis.visit(name, v.iter().map(|(a, b, c)| Plain { a: *a, b: b.clone(), c: *c }).collect::<Vec<Plain>>(), eq_std),
             TV::HdrVec { n, items, flag } => vis.visit(name, HdrVec { n: *n, items: items.clone(), flag: *flag }, eq_std),
             TV::VecHdrVec(v) => vis.visit(name, v.iter().map(|(n, items, flag)| HdrVec { n: *n, items: items.clone(), flag: *flag }).collect::<Vec<HdrVec>>(), eq_std),
+            TV::AttrRows { rows, n } => vis.visit(name, AttrRows { rows: rows.clone(), n: *n }, eq_std),
         }
     }
 
@@ -842,9 +859,27 @@ impl TV {
             TV::VecHdrVec(v) => {
                 out.extend(vecs(v).into_iter().map(TV::VecHdrVec));
             }
+            TV::AttrRows { rows, n } => {
+                if !rows.is_empty() {
+                    out.push(TV::AttrRows { rows: rows[1..].to_vec(), n: *n });
+                }
+                for (i, r) in rows.iter().enumerate() {
+                    if !r.is_empty() {
+                        let mut c = rows.clone();
+                        c[i] = r[1..].to_vec();
+                        out.push(TV::AttrRows { rows: c, n: *n });
+                    }
+                }
+                if *n != 0 {
+                    out.push(TV::AttrRows { rows: rows.clone(), n: 0 });
+                }
+            }
         }
-        // See the generator: `vec![None]` is not representable in Recon.
+        // `vec![None]` is a class of its own (recorded finding `lone_absent_item`): shrinking must not move into it.
         out.retain(|c| c != self && !matches!(c, TV::VecOptI32(v) if v.len() == 1 && v[0].is_none()));
+        if !matches!(self, TV::AttrRows { rows, .. } if rows.is_empty()) {
+            out.retain(|c| !matches!(c, TV::AttrRows { rows, .. } if rows.is_empty()));
+        }
         out
     }
 }
